@@ -360,12 +360,63 @@ struct CountSink : Sink
     }
 };
 
+// counters inside a tree: the message reaches a counter while it already carries an attribute of
+// the counter's name (set by another counter, by the same shared instance, or by the caller)
+void run_seqtree(Tok &k, const std::string &id, const std::string &param, int n)
+{
+    int variant = 0, level = 0, scoped = 1;
+    sscanf(param.c_str(), "%d:%d:%d", &variant, &level, &scoped);
+    const QString name = QStringLiteral("seq_number");
+    int hitA = 0, hitB = 0;
+    QVariant seqA, seqB;
+    auto outer = QSharedPointer<SimplePipeline>::create();
+    if (variant == 0) {
+        outer->addSeqNumber();
+        auto &nested = outer->pipeline();
+        nested.filterLevel(kTypes[level % 5]).addSeqNumber();
+        nested.append(QSharedPointer<CountSink>::create(&hitB, &seqB, name));
+    } else if (variant == 1) {
+        auto sharedCounter = SeqNumberAttrPtr::create(name);
+        auto nested = PipelinePtr::create(scoped != 0);
+        nested->append(sharedCounter);
+        nested->append(QSharedPointer<CountSink>::create(&hitB, &seqB, name));
+        outer->append(sharedCounter);
+        outer->append(nested);
+    } else {
+        outer->addSeqNumber();
+    }
+    outer->append(QSharedPointer<CountSink>::create(&hitA, &seqA, name));
+    std::ostringstream out;
+    out << "R " << id;
+    for (int i = 0; i < n; ++i) {
+        k.num();
+        QtMsgType t = kTypes[k.num() % 5];
+        const std::string &ts = k.next();
+        QString text = (ts == "~") ? QString() : unhexs(ts);
+        QMessageLogContext ctx("f.cpp", 1, "fn", "cat");
+        LogMessage m(t, ctx, text);
+        if (variant == 2) m.setAttribute(name, 777 + i);
+        hitA = hitB = 0;
+        seqA = seqB = QVariant();
+        outer->process(m);
+        out << " b" << hitB;
+        if (hitB && seqB.isValid()) out << ":" << seqB.toLongLong();
+        out << "a" << hitA;
+        if (hitA && seqA.isValid()) out << ":" << seqA.toLongLong();
+    }
+    std::cout << out.str() << "\n";
+}
+
 void run_sequence(Tok &k, const std::string &id)
 {
     const std::string kind = k.next();
     const std::string param = k.next();
     int npipes = int(k.num());
     int n = int(k.num());
+    if (kind == "seqtree") {
+        run_seqtree(k, id, param, n);
+        return;
+    }
     HandlerPtr shared;
     QString seqName = QStringLiteral("seq_number");
     bool viaFluent = false;
@@ -800,6 +851,30 @@ int main(int argc, char **argv)
             LogMessage m = ms.make();
             JsonFormatter jf(compact);
             std::cout << "R " << id << " " << hexs(jf.format(m)) << " " << stamp(m) << "\n";
+        } else if (cmd == "J2") {
+            // the formatter obtained the way applications obtain it: 0 = constructed directly, 1 = through the fluent
+            // SimplePipeline::formatToJson(compact) (several pipelines live in one process), 2 = the shared default instance
+            bool compact = k.num() != 0;
+            int how = int(k.num());
+            MsgSpec ms;
+            ms.parse(k);
+            LogMessage m = ms.make();
+            QString outText;
+            if (how == 1) {
+                SimplePipeline sp;
+                sp.formatToJson(compact);
+                sp.handler([&outText](LogMessage &lm) {
+                    outText = lm.formattedMessage();
+                    return true;
+                });
+                sp.process(m);
+            } else if (how == 2) {
+                outText = JsonFormatter::instance()->format(m);
+            } else {
+                JsonFormatter jf(compact);
+                outText = jf.format(m);
+            }
+            std::cout << "R " << id << " " << hexs(outText) << " " << stamp(m) << "\n";
         } else if (cmd == "Y") {
             QString sdkn = unhexs(k.next());
             QString sdkv = unhexs(k.next());
